@@ -5,6 +5,9 @@
      [k |-> "req",
       route  |-> name of the matched route (handler class name),  cls |-> "api" | "index" | "ws" | "static",
       method |-> HTTP method,  impl |-> BOOLEAN: the route's handler class implements that method (an endpoint),
+      kept   |-> BOOLEAN: sent on the keep-alive connection that carried the client's previous request (FALSE: on a
+                 fresh connection).  The statement speaks about what a REQUEST carries, so kept never excuses anything;
+                 it is recorded to make sure requests following an authenticated one on the same connection are tried,
       cred   |-> class of the password/token carried (header, query or form),
       credok |-> "yes": it is the valid password in a documented carrier, "no": it is not the valid password,
                  "amb": the valid password in an undocumented carrier (no clause speaks about it),
@@ -30,7 +33,8 @@
    flow data, their status is not judged.                                                               *)
 EXTENDS Verif
 
-MonInit == [bad |-> <<>>, wit |-> {}, issued |-> {}, ever |-> {}]
+MonInit == [bad |-> <<>>, wit |-> {}, issued |-> {}, ever |-> {},
+            connauth |-> FALSE]   \* the current connection has carried a request with the valid password
 
 Safe == {"GET", "HEAD", "OPTIONS"}
 CookieValid(m, ev) == ev.ck > 0 /\ ev.ck \in m.issued
@@ -61,16 +65,20 @@ Clause(m, ev) ==
   ELSE <<>>
 
 MonStep(m, ev) ==
-  IF ev.k = "restart" THEN [m EXCEPT !.issued = {}, !.wit = @ \cup {"restart"}]
+  IF ev.k = "restart" THEN [m EXCEPT !.issued = {}, !.connauth = FALSE, !.wit = @ \cup {"restart"}]
   ELSE IF ev.k # "req" THEN [m EXCEPT !.wit = @ \cup {ev.k}]
   ELSE
     LET granted == ev.setck > 0 /\ Authorised(m, ev) /\ ev.status # 403 IN
     [m EXCEPT !.bad = Clause(m, ev),
               !.issued = IF granted THEN @ \cup {ev.setck} ELSE @,
               !.ever = IF granted THEN @ \cup {ev.setck} ELSE @,
+              !.connauth = (ev.kept /\ @) \/ ev.credok = "yes",
               !.wit = @ \cup (IF Unauth(m, ev) /\ ev.impl /\ ev.cls # "static" THEN {"unauth_endpoint"} ELSE {})
                         \cup (IF Unauth(m, ev) /\ ~ev.impl THEN {"unauth_unimplemented"} ELSE {})
                         \cup (IF Unauth(m, ev) /\ ev.cls = "ws" THEN {"unauth_ws"} ELSE {})
+                        \cup (IF Unauth(m, ev) /\ ev.kept /\ m.connauth /\ ev.impl /\ ev.cls # "static"
+                              THEN {"unauth_on_authenticated_connection"} ELSE {})
+                        \cup (IF Unauth(m, ev) /\ ev.kept THEN {"unauth_on_kept_connection"} ELSE {})
                         \cup (IF Unauth(m, ev) /\ ev.cls = "static" THEN {"unauth_static"} ELSE {})
                         \cup (IF Unauth(m, ev) /\ ev.ck < 0 THEN {"forged_cookie"} ELSE {})
                         \cup (IF Unauth(m, ev) /\ ev.ck > 0 /\ ev.ck \in m.ever THEN {"stale_cookie"} ELSE {})
